@@ -67,6 +67,18 @@ def m_type(I, args, kw):
 
 def m_len(I, args, kw):
     if isinstance(args[0], Ref):
+        from .values import ElemListCell
+        c1 = I.path.cell(args[0])
+        if isinstance(c1, ElemListCell):
+            n1 = seqops.length(c1.keys)
+            return n1 if isinstance(n1, int) else mk("int", n1)
+    if isinstance(args[0], OldView):
+        from .values import ElemListCell
+        c1 = I.old_heap.get(args[0].ref.addr)
+        if isinstance(c1, ElemListCell):
+            n1 = seqops.length(c1.keys)
+            return n1 if isinstance(n1, int) else mk("int", n1)
+    if isinstance(args[0], Ref):
         from .values import RegionListCell
         c0 = I.path.cell(args[0])
         if isinstance(c0, RegionListCell):
@@ -750,6 +762,15 @@ def call_model_method(I, tag, self_val, args, kw):
         return dict_method(I, self_val, name, args, kw)
     if fam == "str":
         return str_method(I, self_val, name, args, kw)
+    if fam == "elist":
+        from .values import ElemListCell, MapElem
+        cell = I.path.cell(self_val)
+        if name == "append" and isinstance(args[0], MapElem) and args[0].map_ref.addr == cell.region.addr:
+            cell.keys = seqops.append(cell.keys, mk("int", args[0].key))
+            return None
+        if name == "__len__":
+            return m_len(I, [self_val], {})
+        raise Unsupported(f"list-of-region-objects method {name}")
     if fam == "int" and name == "to_bytes":
         length = args[0] if args else kw.get("length", 1)
         order = args[1] if len(args) > 1 else kw.get("byteorder", "big")
@@ -813,6 +834,11 @@ def seq_method(I, recv, name, args, kw):
     cell = path.cell(recv) if isinstance(recv, Ref) else None
     seq = cell.seq if cell is not None else recv
     if name == "append":
+        from .values import ElemListCell, MapElem
+        if isinstance(args[0], MapElem) and seq.kind == "list" and seq.items is not None and not seq.items:
+            # the first object of a heap region appended to an empty list: from now on a list of region objects
+            I.path.heap[recv.addr] = ElemListCell(args[0].map_ref, SeqV("list", "int", items=[mk("int", args[0].key)]))
+            return None
         cell.seq = seqops.append(seq, args[0])
         return None
     if name == "extend":
